@@ -18,7 +18,14 @@ ID = "C11"
 RULE = ("exhaustive small grids (reflection vectors of length <= 3 over a 9-point pool, pole sets of "
         "<= 2 real poles and <= 1 conjugate pair x 4 gains) plus random larger cases; non-trivial = "
         "order >= 1 (at least one step-down iteration runs / one reflection coefficient exists); "
-        "distinct = distinct JSON case")
+        "distinct = distinct JSON case; long inputs: reflection vectors / pole sets / autocorrelations of order 30-129 "
+        "around powers of two in exact arithmetic; histories (entry hist, harness/props/c11_hist.py): 3-40 operations "
+        "of a caller on up to three MUTABLE ZFilter objects (levinson_durbin results and ZFilters edited in place by "
+        "Poly item assignment / attribute rebinding, one Poly object bound to two filters, the same autocorrelation "
+        "object passed again, numerically equal coefficients given as float / int / Fraction in both orders with "
+        "critical denominators whose binary64 verdict differs from the exact one, two parcor generators drained in "
+        "turns, CascadeFilter), every history in a forked child of a pristine process; a history is non-trivial when "
+        "it contains a parcor / parcor_stable query")
 TRUSTED = [
     "hand-written Lean model ALV/Model/C11.lean of lazy_lpc.parcor / parcor_stable / levinson_durbin "
     "(modelled, not verified: ZFilter/Poly arithmetic as a window of Laurent coefficients over a field, "
@@ -29,12 +36,27 @@ TRUSTED = [
     "proved for every order over real coefficients / complex poles (Props.C11.schur_cohn, "
     "stable_eq_construction); the tie additionally compares the Lean verdict with the construction on every "
     "generated pole set (exact rationals)",
+    "histories: hand-written heap model ALV/Model/C11Hist.lean (Poly objects = cells, ZFilter = two cell indices + the "
+    "`error` attribute; `f.numpoly[i] = v`, `f.numpoly = Poly(..)`, `f.numpoly = g.denpoly` are plain Python object "
+    "semantics, modelled not verified); in the model a query is a pure function of the current contents of the two "
+    "cells and returns the heap unchanged BY CONSTRUCTION (no theorem: it is the definition) - the harness checks it "
+    "on the real code by comparing the contents of every live filter with the Lean heap after every step and every "
+    "query with the payload of the same call taken alone on the current contents (Props.C11.hist_query_alone)",
+    "numerically equal int / float / Fraction coefficients are one and the same Lean input (the model is over a field): "
+    "independence of the numeric type of EARLIER calls holds in the model by construction; steps on int / float "
+    "coefficients are compared with tolerance 1e-9 and not judged when critical or ill conditioned, steps on Fractions "
+    "exactly",
+    "isolation (harness/props/c11_hist.py: zygote_start): a process forked before this one has used the library forks "
+    "one child per history, so a witness is self-contained (no cache / attribute / module state left by earlier cases)",
 ]
 ASSUMPTIONS = [
     "leading (delay 0) coefficient of the step-down input is non-zero (ZFilter's constructor guarantees "
     "it for denominators; a numerator z^-1*(...) is outside the property)",
     "coefficients are exact rationals; float rounding inside the real code is only bounded by the "
-    "1e-9 tolerance in the cases where Poly's float zero leaks in (flagged per case)",
+    "1e-9 tolerance in the cases where Poly's float zero leaks in (flagged per case); floats yielded for an "
+    "all-Fraction filter without a zero reflection coefficient are NOT excused (compared exactly)",
+    "histories: the caller never leaves a Poly empty or with a zero leading (power 0) coefficient, never uses negative "
+    "or fractional powers, and never hashes a Poly (a hashed Poly refuses item assignment)",
 ]
 MANIFEST = {
     "text": ("Lean 4 theorems, for every order and any field: parcor as coded inverts the step-up recursion and "
@@ -42,7 +64,12 @@ MANIFEST = {
              "k^2 = 1 (all inputs); levinson_durbin as coded = step-up of its reflection coefficients with "
              "error = r0*prod(1-k^2); gain invariance of the specification and of the repaired code, and its "
              "NEGATION for the code as it stands (defect D3); Schur-Cohn in both directions for every order "
-             "(real coefficients, complex poles): verdict True <-> all poles strictly inside the unit circle"),
+             "(real coefficients, complex poles): verdict True <-> all poles strictly inside the unit circle; "
+             "histories on mutable filter objects (heap of Poly cells): well-formedness invariant under every operation "
+             "incl. the raising ones, frame theorems (only an in-place edit through a bound filter changes an existing "
+             "Poly; only rebinding changes a filter), coefficient semantics of poly[i] = v, a query = the same query "
+             "taken alone on the current contents, levinson_durbin result edited (rebinding or item loop) then parcor "
+             "yields the NEW reflection coefficients, aliasing, verdict <-> poles of the CURRENT denominator"),
     "note": ("Trusted: Lean kernel, axioms propext/Classical.choice/Quot.sound, the Python correspondence harness. "
              "The model is hand written (ZFilter/Poly arithmetic abstracted to a window of Laurent coefficients "
              "over a field) and validated differentially. Nothing of the property is left pending; the parcor_stable "
@@ -437,6 +464,13 @@ def compare(c, io, drv):
             if "err" in io and io["err"] != "ValueError":
                 out.append(("spec", "impl raised " + io["err"]))
             return out
+        # Floats among the yielded coefficients of an all-Fraction filter are legitimate only through Poly's
+        # float zero: a reflection coefficient that is exactly zero is read back as `0.`; without one the
+        # coefficients must be exact (`c.get("machine")`: a history step on int / float coefficients)
+        if io["float"] and not c.get("machine") and "ks" in drv["spec"] and \
+                all(k != 0 for k in decl(drv["spec"]["ks"])) and all(k != 0 for k in decl(io["ks"])):
+            io["float"] = False
+            io["float_unexplained"] = True
         tol = TOL if io["float"] else 0
         io["compared"] = "tol 1e-9" if io["float"] else "exact"
         if io["float"] and (_critical(decl(drv["spec"]["ks"]) + decl(m["ks"])) or
@@ -532,6 +566,10 @@ def tally(eng, c, io):
     eng.count("entry", e)
     eng.count("compared:" + e, io.get("compared", "error branch"))
     eng.count("order", min(_order(c), 12))
+    if _order(c) >= 30:
+        o = _order(c)
+        eng.count("order_long", "%s %s" % (e, "30-33" if o <= 33 else "34-62" if o < 63 else "63-65" if o <= 65 else
+                                           "66-126" if o < 127 else "127-129"))
     if "err" in io:
         eng.count("impl_error", io["err"])
         return
@@ -575,9 +613,22 @@ def _simpler(x):
     return out
 
 
+LONG = 12      # above this length a list is shrunk by chunks only (every candidate costs up to seconds)
+
+
 def _list_variants(xs, keep_last_nonzero=False, minlen=1):
     xs = list(xs)
     n = len(xs)
+    if n > LONG:
+        seen = []
+        for ys in (xs[:n // 2], xs[n // 2:], xs[:-8], xs[8:], xs[:-2], xs[2:], xs[:-1], xs[1:]):
+            if len(ys) >= minlen and ys not in seen and (not keep_last_nonzero or (ys and ys[-1] != 0)):
+                seen.append(ys)
+                yield ys
+        plain = [F(1, 2) if x != 0 else x for x in xs]
+        if plain != xs:
+            yield plain
+        return
     for i in range(n):
         if n - 1 >= minlen:
             ys = xs[:i] + xs[i + 1:]
@@ -613,6 +664,15 @@ def shrink(c):
         num = decl(c["num"]) if c.get("num") else None
         if num is not None:
             yield case_stable(g, reals, pairs)
+        if len(reals) + len(pairs) > LONG:
+            for rs in _list_variants(reals, minlen=0) if len(reals) > LONG else [reals[:len(reals) // 2], reals[1:]]:
+                yield case_stable(g, rs, pairs, num)
+            for ps in (pairs[:len(pairs) // 2], pairs[len(pairs) // 2:], pairs[1:], pairs[:-1]):
+                if len(ps) < len(pairs):
+                    yield case_stable(g, reals, ps, num)
+            if g != 1:
+                yield case_stable(F(1), reals, pairs, num)
+            return
         for i in range(len(reals)):
             if len(reals) + len(pairs) > 1:
                 yield case_stable(g, reals[:i] + reals[i + 1:], pairs, num)
@@ -630,6 +690,11 @@ def shrink(c):
                 yield {"entry": "stable_den", "den": encl(v)}
     elif e == "levinson":
         r = decl(c["r"])
+        if c["order"] > LONG:
+            for o in (c["order"] // 2, c["order"] - 8, c["order"] - 1):
+                yield case_lev(r[:o + 1], o)
+                yield case_lev(r, o)
+            return
         if c["order"] > 1:
             yield case_lev(r, c["order"] - 1)
             yield case_lev(r[:c["order"]], c["order"] - 1)
